@@ -426,6 +426,6 @@ def do_listing(run, step):
         return
     if exc is not None:
         run.add('C18.listing', 'get_mos_files raised %s: %s' % (type(exc).__name__, exc), None, sig)
-    elif list(got) != want:
+    elif sorted(got, key=lambda k: k.encode('utf-8')) != want:        # the property names no order for the listing
         run.add('C18.listing', 'listing returned %r, the bucket holds %r under the prefix with the suffix' % (got, want), None, sig)
     run.event(run.step_i, 'listing', len(want), pages)
